@@ -109,6 +109,15 @@ int close(int fd) {
     if (!simfd(fd) || t_in_sim) return (int)rawret(RAW(SYS_close, fd, 0, 0, 0, 0, 0));   // descriptors 0-2 of library code are simulated ones too
     SimScope s; int r = k_close(fd); if (r < 0) { errno = -r; return -1; } return 0;
 }
+int ftruncate(int fd, off_t len) {
+    if (!simfd(fd) || t_in_sim) return (int)rawret(RAW(SYS_ftruncate, fd, (long)len, 0, 0, 0, 0));
+    SimScope s; sched_point(SP_IO); sim_step(); Ev &e = sim_event("ftruncate"); e.a = fd; e.b = (long)len;
+    auto it = G.fds.find(fd); if (it == G.fds.end()) { errno = EBADF; return -1; }
+    auto nt = G.w.files.find(it->second.path); if (nt == G.w.files.end() || nt->second.kind != 0) { errno = EINVAL; return -1; }
+    if ((it->second.flags & O_ACCMODE) == O_RDONLY) { errno = EINVAL; return -1; }
+    nt->second.content.resize((size_t)(len < 0 ? 0 : len), '\0');
+    return 0;
+}
 int fsync(int fd) {
     if (!simfd(fd) || t_in_sim) return (int)rawret(RAW(SYS_fsync, fd, 0, 0, 0, 0, 0));
     SimScope s; sim_step(); sim_event("fsync").a = fd; return 0;
